@@ -136,6 +136,8 @@ class Scripted:
 
 
 def scripted_schedule(scn, t):
+    if t < 0:
+        return {}                       # before the (shifted) origin of the scenario the script does nothing
     r = random.Random(scn["scheduler"].get("seed", 0) * 7919 + t)
     if r.random() < 0.08:
         return {}
